@@ -1,11 +1,12 @@
 """Re-run every stored seeded breakage (/verif/seeded/<id>/patch.diff) against the current quick check of its property.
 For each: scratch copy of /repo/src (or of the commit named in meta.json 'repo_head' when it says 'pre ...'), apply the patch,
 FSIM_REPO_SRC/FSIM_OUT_DIR to scratch, ./run <PROP> --tier quick; record exit code and signatures in /verif/seeded/RESULTS.json.
-usage: tools/seeded_all.py [--out FILE] [ID ...]"""
+usage: tools/seeded_all.py [--out FILE] [--fraction F] [ID ...]   (F < 1: only that share of the quick-tier runs, a faster smoke test)"""
 import json, os, re, shutil, subprocess, sys, tempfile
 VERIF = os.path.dirname(os.path.dirname(os.path.abspath(__file__)))
 args = sys.argv[1:]
 out = args[args.index("--out") + 1] if "--out" in args else os.path.join(VERIF, "seeded/RESULTS.json")
+frac = float(args[args.index("--fraction") + 1]) if "--fraction" in args else 1.0
 ids = [a for a in args if re.fullmatch(r"C\d\d[a-z]", a)] or sorted(d for d in os.listdir(os.path.join(VERIF, "seeded")) if re.fullmatch(r"C\d\d[a-z]", d))
 res = json.load(open(out)) if os.path.exists(out) else {}
 for sid in ids:
@@ -26,11 +27,17 @@ for sid in ids:
             print(sid, res[sid]["status"], flush=True)
             continue
         env = dict(os.environ, FSIM_REPO_SRC=os.path.join(scratch, "src"), FSIM_OUT_DIR=os.path.join(scratch, "out"), FSIM_SKIP_FRESH="1")
+        if frac < 1.0:
+            sys.path.insert(0, VERIF)
+            import importlib
+            os.environ.setdefault("PYTHONPATH", "/repo/src")
+            n_quick = int(re.search(r'RUNS = \{"quick": ([\d_]+)', open(os.path.join(VERIF, "fsim/props", prop.lower() + ".py")).read()).group(1).replace("_", ""))
+            env["VERIF_RUNS"] = str(max(200, int(n_quick * frac)))
         r = subprocess.run(["./run", prop, "--tier", "quick"], cwd=VERIF, env=env, capture_output=True, text=True, timeout=7200)
         sigs = sorted(set(re.findall(r"^VIOLATION property=\S+ replay=\S+ rule=(\S+) key=(\S+) runs=(\d+)", r.stdout, re.M)))
         status = "caught" if r.returncode == 1 and sigs else ("harness-error" if r.returncode == 2 else "missed")
         res[sid] = {"property": prop, "status": status, "exit": r.returncode, "tree": head or "HEAD",
-                    "signatures": [f"{a} {b} runs={c}" for a, b, c in sigs][:10]}
+                    "signatures": [f"{a} {b} runs={c}" for a, b, c in sigs][:10], "runs_fraction": frac}
         print(sid, status, len(sigs), "signatures", flush=True)
     finally:
         shutil.rmtree(scratch, ignore_errors=True)
